@@ -16,7 +16,7 @@ import numpy
 from . import common, strata
 from . import symcommon as sc
 from .c02 import oracle_classes
-from .c05 import gen_cases
+from .c05 import gen_cases, source_tie_constraints, TIE_C05, TIE_C06, TIE_WHAT
 
 UNIT = [
     [[1, 0, 0], [0, 0, 0], [0, 0, 0]], [[0, 0, 0], [0, 1, 0], [0, 0, 0]], [[0, 0, 0], [0, 0, 0], [0, 0, 1]],
@@ -177,6 +177,10 @@ def _site_worker(job):
         return "raised %r" % (e,), []
 
 
+def _family_worker(jobs):
+    return [_site_worker(j) for j in jobs]
+
+
 def run(ck):
     import sys
 
@@ -188,6 +192,9 @@ def run(ck):
 
     rep = tables.main(os.path.join(common.LEAN, "DS", "Gen"), os.path.join(common.LEAN, "DS", "Gen", "tables_report.json"))
     translated = {s["number"] for s in rep["settings"]}
+    # the models of the tensor parameter / formula code ARE the current source (translate/src_constraints.py)
+    tie_ok, tie_info = source_tie_constraints(ck, TIE_C06, TIE_C05)
+    ck.widen = not tie_ok
     ok, info = ck.lean_obligations("DS.Props.C06")
     allstrata = strata.all_strata(sgs.SpaceGroupList)
     lines, expects, owners = [], [], []
@@ -197,7 +204,7 @@ def run(ck):
     # every case draws its input tensors from its own seed, which the replay file records
     todo = []
     for sg, kind, x0, x, st in gen_cases(ck, sgs.SpaceGroupList, allstrata):
-        if kind in ("inside", "image") and ck.tier == "quick" and ck.rng.random() < 0.5:
+        if kind in ("inside", "image") and ck.tier == "quick" and not ck.widen and ck.rng.random() < 0.5:
             continue
         todo.append((sg, kind, x0, x, st, ck.rng.randrange(2 ** 31)))
     _W["sgs"] = {g.number: g for g in sgs.SpaceGroupList}
@@ -207,8 +214,18 @@ def run(ck):
     try:
         import multiprocessing
 
+        # one unit of work = all settings of one International Tables number, in table order: settings that share a name or
+        # a number are handled by the same process one after the other (state kept between calls would show)
+        fams = {}
+        for k_, j in enumerate(jobs):
+            fams.setdefault(j[0] % 1000, []).append(k_)
+        order = sorted(fams.values(), key=len, reverse=True)
         with multiprocessing.get_context("fork").Pool(processes=max(1, min(12, (os.cpu_count() or 2) - 2))) as pool:
-            results = pool.map(_site_worker, jobs, chunksize=16)
+            parts = pool.map(_family_worker, [[jobs[k_] for k_ in ks] for ks in order], chunksize=1)
+        results = [None] * len(jobs)
+        for ks, part in zip(order, parts):
+            for k_, r_ in zip(ks, part):
+                results[k_] = r_
     except Exception as e:  # noqa: BLE001  (no worker processes available: evaluate here)
         ck.notes.append("worker pool unavailable (%r): site cases evaluated sequentially" % (e,))
         results = [_site_worker(j) for j in jobs]
@@ -266,7 +283,7 @@ def run(ck):
     nws = 0
     for sg in sgs.SpaceGroupList:
         st = allstrata.get(sg.number)
-        if not st or (ck.tier == "quick" and ck.rng.random() < 0.6):
+        if not st or (ck.tier == "quick" and not ck.widen and ck.rng.random() < 0.6):
             continue
         nws += 1
         prob = whole_structure_case(ck, sg, st, SymmetryConstraints, ExpandAsymmetricUnit)
@@ -281,7 +298,11 @@ def run(ck):
     ck.coverage["samples"] = [{"driver": lines[i][:300], "model": outs[i][:200] if outs else None} for i in (0, len(lines) // 2) if lines]
     ck.assumptions += ["SVD null space and numpy.around(…, 2) of _findUSpace are certificate-checked per generated site, not proved as algorithms",
                        "the stored tensor is required to be invariant and to fix allowed tensors; it is NOT required to equal the group average (the code projects orthogonally in fractional components)"]
-    ck.coverage["trusted_base"] += ["translate/tables.py", "harness/strata.py (generator only)", "formula-string parser in harness/symcommon.py"]
+    ck.coverage["trusted_base"] += ["translate/tables.py", "harness/strata.py (generator only)", "formula-string parser in harness/symcommon.py",
+                                    "translate/src_constraints.py + lean/DS/Model/ConReal.lean (reading of the numpy/Python primitives of the constraint code)"]
+    ck.assumptions += ["source tie DS.Props.SrcConstraints: exact arithmetic over an ordered field (floating point stays with the correspondence); "
+                       "the '%+g' formatting of the U formula coefficients and the final clean-up of the strings are recorded as text"]
+    ck.tie_verdict(tie_ok, tie_info, TIE_WHAT)
     if not ok and not ck.violations:
         ck.fail("lean-build", "Lean obligations of C06 no longer check: %r" % info["failed_modules"],
                 {"kind": "proof-obligation", "theorem": info["failed_modules"], "errors": info["errors"]}, no_failing_input=True)
@@ -444,6 +465,13 @@ def whole_eval(sg, data, SymmetryConstraints, ExpandAsymmetricUnit):
 def replay(path):
     common.use_repo()
     r = json.load(open(path))
+    if r.get("kind") in ("source-tie", "proof-obligation") and "setting" not in r:
+        # regenerate the transliteration from the tree under examination and re-check the theorems of this property
+        ck = common.Check("C06", "quick", 0)
+        ok, info = source_tie_constraints(ck, TIE_C06, TIE_C05)
+        unt = {k: v["untranslatable"] for k, v in info.get("translator", {}).items() if isinstance(v, dict) and v.get("untranslatable")}
+        print("source tie DS.Props.SrcConstraints:", "holds" if ok else "broken: theorems %r, not translatable %r" % (info.get("broken_theorems"), unt))
+        return 0 if ok else 1
     import random
 
     import diffpy.structure.spacegroups as sgs
